@@ -151,8 +151,19 @@ func setup(e *emitter, bc *bcase, rr *recRep) (gmars.ReportingSimulator, []gmars
 	}
 	var ws []gmars.Warrior
 	for i := range bc.ws {
-		w, _ := sim.AddWarrior(&gmars.WarriorData{Code: bc.ws[i].code, Start: bc.ws[i].start})
+		data := &gmars.WarriorData{Code: bc.ws[i].code, Start: bc.ws[i].start}
+		if bc.flags&128 != 0 {
+			// the caller keeps its own slice and scribbles over it after the call
+			data.Code = append([]gmars.Instruction{}, bc.ws[i].code...)
+		}
+		w, _ := sim.AddWarrior(data)
 		ws = append(ws, w)
+		if bc.flags&128 != 0 {
+			for j := range data.Code {
+				data.Code[j] = gmars.Instruction{Op: gmars.JMP, OpMode: gmars.B, A: 0}
+			}
+			data.Start = 0
+		}
 	}
 	if !spawnAll(e, bc, sim, rr) {
 		return nil, nil, false
@@ -345,6 +356,9 @@ func runCaseMore(e *emitter, c []int64) bool {
 		return true
 	case 13:
 		runCli(e, c[1:])
+		return true
+	case 14:
+		runConc(e, c[1:])
 		return true
 	case 10, 11, 12, 20, 21, 22:
 		runAsm(e, c[0], c[1:])
